@@ -8,9 +8,13 @@
   index / slice / make / reflect operation (`idx`, `sliceFrom`, `sliceTo`, ...): a Go `data[a:]`
   is `sliceFrom fn data a`, which answers `crash fn slice` when `a > len data`.
 
-  One set of definitions, parameterised by `fx : Bool`:
-    fx = false : the code as it is (defects included)
-    fx = true  : the code with the proposed guards (props/C05.fix-{6,10,11,12,13,14,15}.diff) applied.
+  The model describes the code AFTER the repairs of KF-C05-12 (readBytes returns an error when the
+  field length exceeds the data), KF-C05-15 (unmarshalList: negative length is an error), KF-C05-16
+  (unmarshalTuple into a []interface{} shorter than the tuple is an error), KF-C05-17 (unmarshalDate: 1..3
+  bytes is an error), KF-C05-18/19 (unmarshalTuple / unmarshalUDT by reflection: a field that cannot take
+  the value is an error) and KF-C05-21 (unmarshalList / unmarshalMap reject an element count that the
+  remaining bytes cannot hold BEFORE reflect.MakeSlice / MakeMapWithSize); KF-C05-14 (goType) was
+  repaired earlier. Each guard is an `errIf` below.
 
   Core Lean only.  Recursion over the type tree is structural (nested inductive), data-driven
   loops recurse structurally on the element count read from the data (each iteration either fails
@@ -139,13 +143,9 @@ def sliceFrom (fn : Fn) (d : Bytes) (a : Nat) : Res Bytes :=
 def sliceTo (fn : Fn) (d : Bytes) (b : Nat) : Res Bytes :=
   if b ≤ d.length then .ok (d.take b) else .crash ⟨fn, .slice⟩
 
-/-- guard added by a proposed fix: answers `err` in the fixed variant, nothing in the code as it is -/
-def fixGuard (fx : Bool) (bad : Bool) : Outcome :=
-  if fx && bad then .err else .ok ()
-
-/-- a panic site of the code as it is that the proposed fix turns into an error -/
-def crashOrErr {α : Type} (fx : Bool) (s : Site) : Res α :=
-  if fx then .err else .crash s
+/-- an explicit guard of the Go code: `if bad { return error }` -/
+def errIf (bad : Bool) : Outcome :=
+  if bad then .err else .ok ()
 
 /-! ## Integers -/
 
@@ -258,7 +258,7 @@ def unmarshalUUID (g : GT) (d : Bytes) : Outcome :=
     | _ => .err
 
 /-- Unmarshal of a native type into a `*g` (g is not a pointer type here). `d = none` is NULL. -/
-def scalar (fx : Bool) (n : Native) (g : GT) (data : Option Bytes) : Outcome :=
+def scalar (n : Native) (g : GT) (data : Option Bytes) : Outcome :=
   let d := data.getD []
   match n with
   | .custom => .err
@@ -326,7 +326,7 @@ def scalar (fx : Bool) (n : Native) (g : GT) (data : Option Bytes) : Outcome :=
       match g with
       | .sc .time | .sc .string =>
           if d.length = 0 then .ok () else do
-            fixGuard fx (d.length < 4)
+            errIf (d.length < 4)   -- `if len(data) < 4 { return error }`
             -- binary.BigEndian.Uint32(data): `_ = b[3]`
             if 3 < d.length then .ok () else .crash ⟨.unmarshalDate, .index⟩
       | _ => .err
@@ -360,7 +360,7 @@ def hashable : GT → Bool
   | _ => true
 
 /-- helpers.go goType: the Go type `NewWithError` allocates for a CQL type -/
-def goType (fx : Bool) : CT → Res GT
+def goType : CT → Res GT
   | .nat n =>
       match n with
       | .custom => .err
@@ -380,11 +380,11 @@ def goType (fx : Bool) : CT → Res GT
       | .varint => .ok (.ptr (.sc .bigint))
       | .duration => .ok (.sc .cqldur)
   | .list e => do
-      let g ← goType fx e
+      let g ← goType e
       .ok (.slice g)
   | .map k v => do
-      let gk ← goType fx k
-      let gv ← goType fx v
+      let gk ← goType k
+      let gv ← goType v
       -- reflect.MapOf(keyType, valueType) behind `if !keyType.Comparable() { return nil, err }`
       -- (the guard is in the tree since /repo commit c637d3e "fix: RowData/MapScan/SliceMap panicked on a
       -- map column whose key type is not comparable in Go"; before it this was a reflect.MapOf panic)
@@ -442,23 +442,22 @@ def seqKind : GT → Option (Bool × Nat × GT)
 
 /-- the element count unmarshalList hands to `reflect.MakeSlice(t, n, n)`, given the declared
     count `n`, the bytes left after the count (`avail`) and the size of an element header (`p`).
-    Code as it is: a negative count panics, any other count is allocated. Fixed: a negative count is
-    an error (fix-11) and so is a count that the remaining bytes cannot hold (fix-15: every element
-    needs at least its `p`-byte length). -/
-def makeCount (fx : Bool) (n : Int) (avail p : Nat) : Res Nat :=
-  if n < 0 then crashOrErr fx ⟨.unmarshalList, .reflectMakeslice⟩
-  else if fx && n.toNat > avail / p then .err
+    A count that the remaining bytes cannot hold is an error (`n > len(data)/p`: every element needs at
+    least its `p`-byte length), and so is a negative count (`if n < 0 { return error }`). -/
+def makeCount (n : Int) (avail p : Nat) : Res Nat :=
+  if n < 0 then .err
+  else if n.toNat > avail / p then .err
   else .ok n.toNat
 
 /-- the hint unmarshalMap hands to `reflect.MakeMapWithSize(t, n)`; `avail` = bytes after the count.
-    Fixed (fix-15): a count above avail / (2p) is an error (every entry needs two headers). -/
-def makeMapCount (fx : Bool) (n : Int) (avail p : Nat) : Res Nat :=
+    A count above avail / (2p) is an error (every entry needs two headers). -/
+def makeMapCount (n : Int) (avail p : Nat) : Res Nat :=
   if n < 0 then .err
-  else if fx && n.toNat > avail / (2 * p) then .err
+  else if n.toNat > avail / (2 * p) then .err
   else .ok n.toNat
 
 /-- marshal.go unmarshalList; `elem g d` is Unmarshal of the element type into a `*g` -/
-def unmarshalList (fx : Bool) (proto : Nat) (elem : GT → Option Bytes → Outcome)
+def unmarshalList (proto : Nat) (elem : GT → Option Bytes → Outcome)
     (g : GT) (data : Option Bytes) : Outcome :=
   match seqKind g with
   | none => .err
@@ -472,7 +471,7 @@ def unmarshalList (fx : Bool) (proto : Nat) (elem : GT → Option Bytes → Outc
         if (alen : Int) ≠ n then .err else listLoop proto (elem e) alen n.toNat 0 d
       else do
         -- reflect.MakeSlice(t, n, n)
-        let cnt ← makeCount fx n d.length p
+        let cnt ← makeCount n d.length p
         listLoop proto (elem e) cnt cnt 0 d
 
 def mapLoop (proto : Nat) (fk fv : Option Bytes → Outcome) : Nat → Bytes → Outcome
@@ -485,7 +484,7 @@ def mapLoop (proto : Nat) (fk fv : Option Bytes → Outcome) : Nat → Bytes →
       mapLoop proto fk fv cnt d
 
 /-- marshal.go unmarshalMap -/
-def unmarshalMap (fx : Bool) (proto : Nat) (key val : GT → Option Bytes → Outcome)
+def unmarshalMap (proto : Nat) (key val : GT → Option Bytes → Outcome)
     (g : GT) (data : Option Bytes) : Outcome :=
   match g with
   | .map gk gv =>
@@ -494,7 +493,7 @@ def unmarshalMap (fx : Bool) (proto : Nat) (key val : GT → Option Bytes → Ou
     | some d => do
       let (n, p) ← readCollectionSize proto d
       -- `if n < 0 { return error }`, reflect.MakeMapWithSize(t, n)
-      let cnt ← makeMapCount fx n (d.length - p) p
+      let cnt ← makeMapCount n (d.length - p) p
       let d ← sliceFrom .unmarshalMap d p
       mapLoop proto (key gk) (val gv) cnt d
   | _ => .err
@@ -509,19 +508,19 @@ def readInt (d : Bytes) : Res Int := do
   let e ← idx .readInt d 3
   .ok (i32 a b c e)
 
-/-- marshal.go readBytes (no length check in the code as it is) -/
-def readBytes (fx : Bool) (d : Bytes) : Res (Option Bytes × Bytes) := do
+/-- marshal.go readBytes: `if int(size) > len(p) { return error }` before the two slice expressions -/
+def readBytes (d : Bytes) : Res (Option Bytes × Bytes) := do
   let size ← readInt d
   let d ← sliceFrom .readBytes d 4
   if size < 0 then .ok (none, d) else do
-    let (_ : Unit) ← fixGuard fx (d.length < size.toNat)
+    let (_ : Unit) ← errIf (d.length < size.toNat)
     let a ← sliceTo .readBytes d size.toNat
     let b ← sliceFrom .readBytes d size.toNat
     .ok (some a, b)
 
 /-- `var p []byte; if len(data) >= 4 { p, data = readBytes(data) }` -/
-def tupleField (fx : Bool) (d : Bytes) : Res (Option Bytes × Bytes) :=
-  if d.length ≥ 4 then readBytes fx d else .ok (none, d)
+def tupleField (d : Bytes) : Res (Option Bytes × Bytes) :=
+  if d.length ≥ 4 then readBytes d else .ok (none, d)
 
 def stripPtr : GT → GT
   | .ptr g => stripPtr g
@@ -574,9 +573,9 @@ def assignable (src dst : GT) : Bool :=
   | .sc .iface => true
   | _ => GT.beq dst src || GT.beq (underlying dst) src || GT.beq dst (underlying src)
 
-/-- `rv.Field(i).Set(...)` / `rv.Index(i).Set(...)` of unmarshalTuple with a value of type `src`
-    (`*src` for a pointer slot) -/
-def setSlot (fx : Bool) (slots : List Slot) (i : Nat) (src : GT) : Outcome :=
+/-- `setTupleElem(rv.Field(i) / rv.Index(i), v, ..)` of unmarshalTuple with a value of type `src`
+    (`*src` for a pointer slot): `if !dst.CanSet() || !src.Type().AssignableTo(dst.Type()) { return error }` -/
+def setSlot (slots : List Slot) (i : Nat) (src : GT) : Outcome :=
   match slots[i]? with
   | none => .crash ⟨.unmarshalTuple, .reflectBounds⟩
   | some (settable, t) =>
@@ -584,7 +583,7 @@ def setSlot (fx : Bool) (slots : List Slot) (i : Nat) (src : GT) : Outcome :=
       match t with
       | .ptr t' => GT.beq t' src
       | t => assignable src t
-    if settable && fits then .ok () else crashOrErr fx ⟨.unmarshalTuple, .reflect⟩
+    if settable && fits then .ok () else .err
 
 /-- a field of a struct-kind destination as unmarshalUDT sees it -/
 structure UField where
@@ -630,90 +629,120 @@ def isMsi : GT → Bool
 mutual
 /-- `Unmarshal(info, data, value)` for a `value` of type `*g`, `g` not a pointer type (the
     callers go through `unmG`). -/
-def core (fx : Bool) (proto : Nat) : CT → GT → Option Bytes → Outcome
-  | .nat n, g, d => scalar fx n g d
-  | .list e, g, d => unmarshalList fx proto (fun g' d' => unmG (core fx proto e) g' d') g d
+def core (proto : Nat) : CT → GT → Option Bytes → Outcome
+  | .nat n, g, d => scalar n g d
+  | .list e, g, d => unmarshalList proto (fun g' d' => unmG (core proto e) g' d') g d
   | .map k v, g, d =>
-      unmarshalMap fx proto (fun g' d' => unmG (core fx proto k) g' d')
-        (fun g' d' => unmG (core fx proto v) g' d') g d
+      unmarshalMap proto (fun g' d' => unmG (core proto k) g' d')
+        (fun g' d' => unmG (core proto v) g' d') g d
   | .tuple es, g, d =>
       -- unmarshalTuple, reflection path (value is a pointer, not a []interface{})
       match tupleSlots g es.length with
       | none => .err
       | some .err => .err
       | some (.crash s) => .crash s
-      | some (.ok slots) => tupleLoop fx proto es 0 slots (d.getD [])
+      | some (.ok slots) => tupleLoop proto es 0 slots (d.getD [])
   | .udt fs, g, d =>
       if isMsi g then
         match d with
         | none => .ok ()
-        | some b => udtMapLoop fx proto fs b
+        | some b => udtMapLoop proto fs b
       else
         match udtFields g with
         | none => .err
-        | some sf => if (d.getD []).length = 0 then .ok () else udtStructLoop fx proto fs sf (d.getD [])
+        | some sf => if (d.getD []).length = 0 then .ok () else udtStructLoop proto fs sf (d.getD [])
 /-- the `for i, elem := range tuple.Elems` loop of the struct / slice / array paths -/
-def tupleLoop (fx : Bool) (proto : Nat) : List CT → Nat → List Slot → Bytes → Outcome
+def tupleLoop (proto : Nat) : List CT → Nat → List Slot → Bytes → Outcome
   | [], _, _, _ => .ok ()
   | e :: es, i, slots, d => do
-      let (p, d) ← tupleField fx d
-      let gt ← goType fx e            -- elem.NewWithError()
-      unmG (core fx proto e) gt p
-      setSlot fx slots i gt
-      tupleLoop fx proto es (i + 1) slots d
+      let (p, d) ← tupleField d
+      let gt ← goType e            -- elem.NewWithError()
+      unmG (core proto e) gt p
+      setSlot slots i gt
+      tupleLoop proto es (i + 1) slots d
 /-- unmarshalUDT into a `*map[string]interface{}` -/
-def udtMapLoop (fx : Bool) (proto : Nat) : List (Nat × CT) → Bytes → Outcome
+def udtMapLoop (proto : Nat) : List (Nat × CT) → Bytes → Outcome
   | [], _ => .ok ()
   | (_, e) :: fs, d =>
       if d.length = 0 then .ok ()
       else if d.length < 4 then .err
       else do
-        let gt ← goType fx e
-        let (p, d) ← readBytes fx d
-        unmG (core fx proto e) gt p
-        udtMapLoop fx proto fs d
+        let gt ← goType e
+        let (p, d) ← readBytes d
+        unmG (core proto e) gt p
+        udtMapLoop proto fs d
 /-- unmarshalUDT into a `*struct` -/
-def udtStructLoop (fx : Bool) (proto : Nat) : List (Nat × CT) → List UField → Bytes → Outcome
+def udtStructLoop (proto : Nat) : List (Nat × CT) → List UField → Bytes → Outcome
   | [], _, _ => .ok ()
   | (nm, e) :: fs, sf, d =>
       if d.length = 0 then .ok ()
       else if d.length < 4 then .err
       else do
-        let (p, d) ← readBytes fx d
+        let (p, d) ← readBytes d
         match lookupField sf nm with
-        | none => udtStructLoop fx proto fs sf d
+        | none => udtStructLoop proto fs sf d
         | some f =>
-          -- f.Addr().Interface() panics on an unexported field
+          -- `!f.CanInterface()` (an unexported field) is an error
           if f.exported then do
-            unmG (core fx proto e) f.ty p
-            udtStructLoop fx proto fs sf d
-          else crashOrErr fx ⟨.unmarshalUDT, .reflect⟩
+            unmG (core proto e) f.ty p
+            udtStructLoop proto fs sf d
+          else .err
 end
 
 /-- unmarshalTuple into a `[]interface{}` of pointers: `Unmarshal(elem, p, v[i])` -/
-def ifsLoop (fx : Bool) (proto : Nat) : List CT → Nat → List GT → Bytes → Outcome
+def ifsLoop (proto : Nat) : List CT → Nat → List GT → Bytes → Outcome
   | [], _, _, _ => .ok ()
   | e :: es, i, ds, d => do
-      let (p, d) ← tupleField fx d
+      let (p, d) ← tupleField d
       match ds[i]? with
-      | none => crashOrErr fx ⟨.unmarshalTuple, .index⟩
+      | none => .crash ⟨.unmarshalTuple, .index⟩   -- unreachable: `len(v) < len(tuple.Elems)` was rejected
       | some g => do
-        unmG (core fx proto e) g p
-        ifsLoop fx proto es (i + 1) ds d
+        unmG (core proto e) g p
+        ifsLoop proto es (i + 1) ds d
 
 /-- `gocql.Unmarshal(info, data, dest)`: the outcome -/
-def unmarshal (fx : Bool) (proto : Nat) (t : CT) (dst : Dest) (d : Option Bytes) : Outcome :=
+def unmarshal (proto : Nat) (t : CT) (dst : Dest) (d : Option Bytes) : Outcome :=
   match dst with
-  | .val g => unmG (core fx proto t) g d
+  | .val g => unmG (core proto t) g d
   | .deflt => do
-      let g ← goType fx t
-      unmG (core fx proto t) g d
+      let g ← goType t
+      unmG (core proto t) g d
   | .ifs ds =>
       match t with
       | .tuple es =>
-          -- proposed fix: `if len(v) < len(tuple.Elems) { return error }` before the loop
-          if fx && ds.length < es.length then .err else ifsLoop fx proto es 0 ds (d.getD [])
+          -- `if len(v) < len(tuple.Elems) { return error }` before the loop
+          if ds.length < es.length then .err else ifsLoop proto es 0 ds (d.getD [])
       | _ => .err      -- every other decoder: "can not unmarshal into non-pointer"
+
+/-! ## Allocation: what the top-level collection decode asks reflect for -/
+
+/-- the element count the decode of a list / set / map VALUE hands to reflect.MakeSlice (list, set) or,
+    doubled (a key and a value per entry), to reflect.MakeMapWithSize — 0 when the decoder does not get
+    that far. It is the model's allocation counter for the value decoders (nested collections are
+    bounded the same way, each against its own bytes). -/
+def topAllocCount (proto : Nat) (t : CT) (g : GT) (data : Option Bytes) : Nat :=
+  match t, data with
+  | .list _, some d =>
+    (match seqKind g with
+     | some (false, _, _) =>
+       (match readCollectionSize proto d with
+        | .ok (n, p) => (match makeCount n (d.length - p) p with | .ok c => c | _ => 0)
+        | _ => 0)
+     | _ => 0)
+  | .map _ _, some d =>
+    (match g with
+     | .map _ _ =>
+       (match readCollectionSize proto d with
+        | .ok (n, p) => (match makeMapCount n (d.length - p) p with | .ok c => 2 * c | _ => 0)
+        | _ => 0)
+     | _ => 0)
+  | _, _ => 0
+
+/-- the destination type the top-level decoder works on -/
+def destType (t : CT) : Dest → Option GT
+  | .val g => some (stripPtr g)
+  | .deflt => (match goType t with | .ok g => some (stripPtr g) | _ => none)
+  | .ifs _ => none
 
 /-! ## Answers (line protocol) -/
 
@@ -870,18 +899,25 @@ def parseWord {α : Type} (f : Node → Option α) (s : String) : Option α :=
   | _ => none
 
 /-- op line `val <proto> <type> <dest> <hex|nil|->`: the model's answer; `none` for other ops -/
-def answerFx (fx : Bool) (ws : List String) : Option String :=
+def answer (ws : List String) : Option String :=
   match ws with
+  | ["alloc", "val", p, t, d, h] =>
+    -- allocation class of one Unmarshal: `ok` = the element count asked of reflect fits the bytes received
+    -- (always, by C05Value.C05_top_alloc_bound), `over:<count>` otherwise
+    (match p.toNat?, parseWord toCT t, parseWord toDest d, parseData h with
+     | some proto, some ct, some dst, some data =>
+       if proto > 255 then some "bad-op" else
+       let c := (match destType ct dst with | some g => topAllocCount proto ct g data | none => 0)
+       if c * (if proto > 2 then 4 else 2) ≤ (data.getD []).length then some "ok" else some ("over:" ++ toString c)
+     | _, _, _, _ => some "bad-op")
   | "val" :: rest =>
     match rest with
     | [p, t, d, h] =>
       match p.toNat?, parseWord toCT t, parseWord toDest d, parseData h with
       | some proto, some ct, some dst, some data =>
-          if proto > 255 then some "bad-op" else some (unmarshal fx proto ct dst data).str
+          if proto > 255 then some "bad-op" else some (unmarshal proto ct dst data).str
       | _, _, _, _ => some "bad-op"
     | _ => some "bad-op"
   | _ => none
-
-def answer (ws : List String) : Option String := answerFx false ws
 
 end CrashValue
